@@ -22,10 +22,11 @@ import os
 import shutil
 import tempfile
 
-LEAN_MODULES = ['Pycdlib.Props.C13', 'Pycdlib.Props.C01Tree', 'Pycdlib.Props.C14']
+LEAN_MODULES = ['Pycdlib.Props.C13', 'Pycdlib.Props.C01Tree', 'Pycdlib.Props.C14', 'Pycdlib.Props.C10Names']
 THEOREMS = ['Pycdlib.check_file_iff', 'Pycdlib.check_dir_iff', 'Pycdlib.check_refusal_documented',
             'Pycdlib.isD1_matches_source', 'Pycdlib.splitLast_eq_some', 'Pycdlib.splitLast_eq_none',
-            'Pycdlib.Spec.history_is_forest', 'Pycdlib.Atomic.run_preserves_wf']
+            'Pycdlib.Spec.history_is_forest', 'Pycdlib.Atomic.run_preserves_wf',
+            'Pycdlib.UdfNames.identOf_injective', 'Pycdlib.UdfNames.lookup_own_name']
 PARTIAL = {
     'unique_idents / idents_legal over edit histories': 'stated on the edit-state model in Props/C04 (sortedness and '
     'distinctness of children) for the ISO9660/Joliet fragment; UDF and Rock Ridge names are covered by the S-api oracle only',
@@ -205,6 +206,73 @@ def _short(op):
     return {k: (v if not isinstance(v, str) or len(v) < 30 else v[:27] + '...') for k, v in op.items()}
 
 
+def udf_encoding_lookup(ctx, cfg, ops, names):
+    """both names present: each lookup returns its own content; removing one leaves the other"""
+    import io
+    rp = {'kind': 'history', 'cfg': cfg, 'ops': ops, 'label': 'udf-encoding-collision'}
+    with isoapi.frozen_time():
+        iso = isoapi.new_iso(cfg)
+        for op in ops:
+            isoapi.apply_op(iso, op)
+        out = io.BytesIO()
+        iso.write_fp(out)
+        iso.close()
+    import pycdlib
+    g = pycdlib.PyCdlib()
+    g.open_fp(io.BytesIO(out.getvalue()))
+    try:
+        lens = {}
+        for nm, want in zip(names, (5, 7)):
+            r = io.BytesIO()
+            g.get_file_from_iso_fp(r, udf_path='/' + nm)
+            lens[nm] = len(r.getvalue())
+            if lens[nm] != want:
+                ctx.violation('C13.udf-encoding/lookup-wrong-entry', 'UDF lookup of %r returns the %d-byte content of the other name (%r)' % (nm, lens[nm], names), rp)
+        g.rm_file(udf_path='/' + names[1])
+        try:
+            r = io.BytesIO()
+            g.get_file_from_iso_fp(r, udf_path='/' + names[0])
+            if len(r.getvalue()) != 5:
+                ctx.violation('C13.udf-encoding/remove-wrong-entry', 'after rm_file(udf_path=%r) the name %r reads other content' % (names[1], names[0]), rp)
+        except Exception as e:  # noqa
+            ctx.violation('C13.udf-encoding/remove-wrong-entry', 'rm_file(udf_path=%r) removed %r: %r' % (names[1], names[0], e), rp)
+    except Exception as e:  # noqa
+        ctx.violation('C13.udf-encoding/%s' % isoapi.exc_class(e), 'lookups with both names present raised %r' % e, rp)
+    finally:
+        g.close()
+
+
+def missing_lookups(ctx):
+    """a name that does not exist is refused with the invalid-input error in every namespace, wherever it would sort"""
+    import io
+    import pycdlib
+    iso = pycdlib.PyCdlib()
+    iso.new(interchange_level=3, rock_ridge='1.09', joliet=3, udf='2.60')
+    iso.add_fp(io.BytesIO(b'x'), 1, '/MMM.;1', rr_name='mmm', joliet_path='/mmm', udf_path='/mmm')
+    iso.add_directory('/DDD', rr_name='ddd', joliet_path='/ddd', udf_path='/ddd')
+    for key, mk in (('iso_path', lambda n: '/' + n.upper() + '.;1'), ('rr_path', lambda n: '/' + n), ('joliet_path', lambda n: '/' + n), ('udf_path', lambda n: '/' + n)):
+        for nm in ('aaa', 'mmn', 'zzz', 'ddd/zzz', 'ddd/000', 'nodir/x', 'mmm/x'):
+            p = mk(nm) if '/' not in nm else '/' + (nm.upper() if key == 'iso_path' else nm)
+            for call in ('get_record', 'get_file', 'rm_file'):
+                try:
+                    if call == 'get_record':
+                        iso.get_record(**{key: p})
+                    elif call == 'get_file':
+                        iso.get_file_from_iso_fp(io.BytesIO(), **{key: p})
+                    else:
+                        if key == 'rr_path':
+                            continue
+                        iso.rm_file(**{key: p})
+                    res = 'ok'
+                except Exception as e:  # noqa
+                    res = isoapi.exc_class(e)
+                ctx.count(key=('missing', key, nm, call), kind='api:missing-lookup', nontrivial=True)
+                if res != 'invalidInput':
+                    ctx.violation('C13.missing-lookup/%s/%s' % (key.split('_')[0], res), '%s(%s=%r) for a name that does not exist: %s instead of PyCdlibInvalidInput' % (call, key, p, res),
+                                  {'kind': 'missing-lookup'})
+    iso.close()
+
+
 def run_api(ctx):
     rng = ctx.rng
     tmpdir = tempfile.mkdtemp(prefix='verif-c13-')
@@ -290,6 +358,26 @@ def run_api(ctx):
                 scenario(ctx, tmpdir, cfg, [{'op': 'addfp', 'cid': 1, 'n': 3, 'iso': '/A.;1', 'udf': '/' + ch * ln}], 'width-udf-file:%d' % ln)
                 scenario(ctx, tmpdir, cfg, [{'op': 'adddir', 'iso': '/A', 'udf': '/' + ch * ln}], 'width-udf-dir:%d' % ln)
                 ctx.count(key=('udfwidth', ln, ch), kind='api:width-udf')
+        # Rock Ridge names and symbolic-link targets whose continuation data does not fit one sector: refused at the
+        # edit (or, if accepted, writable) - never accepted and then unwritable
+        for ver in ('1.09', '1.12'):
+            cfg = {'ilevel': 3, 'joliet': None, 'rr': ver, 'udf': None, 'xa': False}
+            for ln in (1500, 1900, 2040, 2100, 2500, 4000):
+                scenario(ctx, tmpdir, cfg, [{'op': 'addfp', 'cid': 1, 'n': 3, 'iso': '/A.;1', 'rr': 'n' * ln}], 'width-rr-name:%d' % ln)
+                scenario(ctx, tmpdir, cfg, [{'op': 'adddir', 'iso': '/A', 'rr': 'd' * ln}], 'width-rr-dir:%d' % ln)
+                scenario(ctx, tmpdir, cfg, [{'op': 'addsym', 'iso': '/S.;1', 'rr': 's', 'target': 't' * ln}], 'width-rr-target:%d' % ln)
+                scenario(ctx, tmpdir, cfg, [{'op': 'addsym', 'iso': '/S.;1', 'rr': 's', 'target': '/'.join(['c' * 9] * (ln // 10))}], 'width-rr-target-components:%d' % ln)
+                ctx.count(key=('rrwidth', ver, ln), kind='api:width-rr')
+        # UDF identifiers are stored in latin-1 or UTF-16: a UTF-16 name whose bytes equal the latin-1 bytes of another
+        # name (U+6162 = 'ab') is a different name - both are accepted, each is found under its own name only
+        cfg = {'ilevel': 3, 'joliet': None, 'rr': None, 'udf': '2.60', 'xa': False}
+        for a, b in (('ab', '\u6162'), ('xy12', '\u7879\u3132'), ('AB', '\u4142')):
+            for order in ((a, b), (b, a)):
+                ops = [{'op': 'addfp', 'cid': 1, 'n': 5, 'iso': '/A.;1', 'udf': '/' + order[0]}, {'op': 'addfp', 'cid': 2, 'n': 7, 'iso': '/B.;1', 'udf': '/' + order[1]}]
+                res = scenario(ctx, tmpdir, cfg, ops, 'udf-encoding-collision:%s' % a)
+                ctx.count(key=('udfenc', a, order[0] == a), kind='api:udf-encoding')
+                if res == ['ok', 'ok']:
+                    udf_encoding_lookup(ctx, cfg, ops, order)
         # depth rule
         for lvl, rr, depth in ((1, None, 7), (1, None, 8), (3, None, 8), (4, None, 9), (1, '1.09', 9)):
             cfg = {'ilevel': lvl, 'joliet': None, 'rr': rr, 'udf': None, 'xa': False}
@@ -311,6 +399,7 @@ def run_api(ctx):
 
 def run(ctx):
     run_fn(ctx)
+    missing_lookups(ctx)
     run_api(ctx)
     ctx.exhaustive = False
 
@@ -331,10 +420,17 @@ def replay(ctx, obj):
         core.log('impl=%s model=%s' % (a, b))
         if a != b:
             sigs.append(obj.get('signature', 'C13.fn'))
+    elif r.get('kind') == 'missing-lookup':
+        missing_lookups(ctx)
+        for v in ctx.violations:
+            core.log('violation:', v['signature'], v['summary'])
+        sigs += [v['signature'] for v in ctx.violations]
     elif r.get('kind') == 'history':
         tmpdir = tempfile.mkdtemp(prefix='verif-c13-')
         try:
-            scenario(ctx, tmpdir, r['cfg'], r['ops'], r.get('label', 'replay'))
+            res = scenario(ctx, tmpdir, r['cfg'], r['ops'], r.get('label', 'replay'))
+            if r.get('label') == 'udf-encoding-collision' and res == ['ok', 'ok']:
+                udf_encoding_lookup(ctx, r['cfg'], r['ops'], [r['ops'][0]['udf'][1:], r['ops'][1]['udf'][1:]])
         finally:
             shutil.rmtree(tmpdir, ignore_errors=True)
         for v in ctx.violations:
